@@ -398,6 +398,8 @@ func (w *evmWorld) deliver(from *evmAcct, recip *evmAcct, s EthTxSpec, tag strin
 			reason = "value>balance"
 		case balB[from.id].Cmp(fee) < 0:
 			reason = "fee>balance"
+		case balB[from.id].Cmp(new(big.Int).Add(new(big.Int).Mul(s.FeeCap, lim), s.Value)) < 0:
+			reason = "cost>balance" // CheckSenderBalance, in DeliverTx since the F-19a repair
 		case w.maxGas > 0 && s.GasLimit > uint64(w.maxGas):
 			reason = "gas>blocklimit"
 		case strings.Contains(res.Log, "no block gas left"):
@@ -409,6 +411,14 @@ func (w *evmWorld) deliver(from *evmAcct, recip *evmAcct, s EthTxSpec, tag strin
 			env.Violate("C19.rejected-free", "spurious-reject", "tx rejected although every admission check passes: "+res.Log, w.hist)
 		}
 		env.Outcome("rej:" + reason)
+	}
+	// admission at full strength (F-19a repaired): no included tx may cost more than the sender owned
+	if included {
+		env.Eval("C19.admission")
+		cost := new(big.Int).Add(new(big.Int).Mul(s.FeeCap, new(big.Int).SetUint64(s.GasLimit)), s.Value)
+		if balB[from.id].Cmp(cost) < 0 {
+			env.Violate("C19.admission", "admit-cost-gt-balance", fmt.Sprintf("%s: tx with gasLimit*feeCap+value = %s was included although the sender owned %s", r.class, cost, balB[from.id]), w.hist)
+		}
 	}
 	// M3: exact fee, bounds, collector credit, value transfer iff success
 	if included {
